@@ -7,6 +7,7 @@ from ..impl import run_impl
 from ..model import run_model
 from . import dimwise as dw
 from . import _c06_gen
+from . import _c06_gen2     # second generated file (container bookkeeping methods, object-machine front end)
 
 ASSUMPTIONS = [
     'coordinates/benefits on dyadic lattices: interval end points and the margin test are exact in binary64',
@@ -344,8 +345,10 @@ def _sweep(chk, prop, c, r, fixed_case, leg_out, i, fields, extra_oracle):
 def run(chk):
     # source-derived model: coq/Gen/DimWiseGen.v is regenerated from the working tree; Props/C06gen.v is re-checked against it
     gen_info = _c06_gen.regenerate(chk)
-    chk.coq_obligations(extra_props=_c06_gen.EXTRA_PROPS)
+    gen_info2 = _c06_gen2.regenerate(chk)
+    chk.coq_obligations(extra_props=_c06_gen.EXTRA_PROPS + _c06_gen2.EXTRA_PROPS)
     gen_problem = _c06_gen.diagnose(chk, gen_info)
+    gen_problem2 = _c06_gen2.diagnose(chk, gen_info2)
     n = chk.n(110, 1500)
     nd = chk.n(1000, 12000)
     ni = chk.n(800, 10000)
@@ -386,6 +389,7 @@ def run(chk):
                      'huge boxes and benefit magnitudes 2^-60..2^30, further performSpatiallyAdaptiv legs on the same object, a second object alive in the '
                      'process, d = 1, a few trees with 200-300 intervals (histogram keys axis:*)', samples)
     _c06_gen.finish(chk, gen_info, gen_problem)
+    _c06_gen2.finish(chk, gen_info2, gen_problem2)
 
 
 def replay(chk, rep):
